@@ -170,13 +170,27 @@ CLAIMS = [
                       "technique). Parameters in different dependency layers are ordered by layer, as documented ('source order only "
                       "breaks ties'). The traces alarm on any semantic edit of the audited functions.",
     },
+    {
+        "id": "C04",
+        "technique": "static analysis: sibling-table agreement of the five constructor tables (typed HIR arm evaluation), explicit-arm pattern translation table, producer/hint pairing over who-constructs facts and query-judgment callers, gate/truncation rules, audited flow-sensitive traces of the matrix recursion and of run-time pattern assignment",
+        "level_text": "Decides necessary structural conditions, not the algorithm's theorem: per constructor kind head_space -> constructors -> "
+                      "specialize is the diagonal with None elsewhere, specialize yields exactly arity() sub-patterns (same name / same "
+                      "product arity), wildcards specialise to arity() wildcards, rebuild consumes arity() witnesses and keeps the rest; "
+                      "from_typed has an explicit arm per typed pattern former with the audited translation (right-nested product spine, "
+                      "static package fields erased); every producer of a CoMatch node or constructor pattern records its hint for the id "
+                      "it produced and the scrutinee hint comes from the Data arm of the unrolled type; every coverage error reaches the "
+                      "checker's error list; truncation bounds agree; audited traces of U(P,n,E) (columns-1+arity, head space over all rows, "
+                      "expected space on empty matrices), comatch missing/duplicate sets and the interpreter's pattern assignment.",
+        "level_note": "NOT decided: soundness/completeness of the pattern-matrix algorithm against enumeration of values (a different "
+                      "technique); the traces encode my reading of Maranget's algorithm as implemented and alarm on any semantic edit.",
+    },
 ]
 
 _PENDING = "check not built yet in this round (static rule designed in DESIGN.md, implementation pending)"
 NOT_APPLICABLE = [
     {"property_id": "C20", "reason": "behavioural equation through a 2800-line type-directed translation; no clause is both visible in the shape of elaborate/monadic/* and a necessary condition of the equation (DESIGN.md C20)"},
 ] + [{"property_id": p, "reason": _PENDING} for p in
-     ["C04", "C12", "C13", "C14", "C18", "C19"]]
+     ["C12", "C13", "C14", "C18", "C19"]]
 
 NOTES = ("Static analysis only: every verdict is computed from /repo's current working tree by the zyq rustc driver "
          "(facts) and repository-specific rules; nothing executes zydeco. Exit 2 (no VIOLATION line) means the tree could not "
